@@ -75,15 +75,12 @@ func (c RCallGraph) BuildRCallChain(funcName string, methodMap map[string][]stri
 	if len(methodMap[funcName]) > 0 {
 		var arrayResult = ""
 		for _, child := range methodMap[funcName] {
-			if child == lastChild {
-				return ""
-			}
-			if len(methodMap[child]) > 0 {
-				lastChild = child
-				arrayResult = arrayResult + c.BuildRCallChain(child, methodMap)
-			}
 			if funcName == child {
 				continue
+			}
+			if len(methodMap[child]) > 0 && child != lastChild {
+				lastChild = child
+				arrayResult = arrayResult + c.BuildRCallChain(child, methodMap)
 			}
 			newCall := "\"" + child + "\" -> \"" + funcName + "\";\n"
 			arrayResult = arrayResult + newCall
